@@ -47,6 +47,10 @@ func runC12(p *Plan) {
 			OpDeq(p.Out, e, vc.v, b, FormForeign, FormPtr, false, nil)
 			OpDeq(p.Out, e, vc.v, b, FormPtr, FormForeign, false, nil)
 			OpDeq(p.Out, e, vc.v, b, FormPtr, FormNil, false, nil)
+			// two arguments of an unrelated type (or two untyped nils) are refused too: they are not "equal"
+			OpDeq(p.Out, e, vc.v, b, FormForeign, FormForeign, false, nil)
+			OpDeq(p.Out, e, vc.v, b, FormNil, FormNil, false, nil)
+			OpDeq(p.Out, e, vc.v, b, FormForeign, FormNil, false, nil)
 			// operations that must write through their argument
 			zero := NewGen(tr, ProfNil).Val(e.Type, 0)
 			OpReset(p.Out, e, vc.v, FormVal)
